@@ -64,6 +64,8 @@ def selectors(names, alphabet):
         mixed = np.empty(3, dtype=object)
         mixed[:] = [a0, n - 1, a1 + "::-1"]
         sels += [mixed]
+        # positions counted from the end, as lists and as integer arrays of several dtypes
+        sels += [[-1, 0], np.array([-1, 0]), np.array([n - 1, -n]), np.array([-1, -1], dtype=np.int32), np.array([0, -n], dtype=np.int16)]
     return sels
 
 
@@ -88,6 +90,22 @@ def observe(t, sel):
     """All three views of one selector (or pair, given as tuple): positions, mask, rows."""
     n = len(t)
     out = {}
+    # the caller's selector objects (lists, arrays) must come back unchanged from every call: a selector denotes the
+    # same rows from one use to the next
+    parts = sel if isinstance(sel, tuple) else (sel,)
+    snaps = [(p_, p_.copy() if hasattr(p_, "dtype") else list(p_)) for p_ in parts if isinstance(p_, list) or hasattr(p_, "dtype")]
+
+    def args_intact(where):
+        for p_, snap in snaps:
+            same = (p_.shape == snap.shape and p_.dtype == snap.dtype and all(a is b or a == b for a, b in zip(p_.tolist(), snap.tolist()))) \
+                if hasattr(p_, "dtype") else (len(p_) == len(snap) and all(a is b or a == b for a, b in zip(p_, snap)))
+            if not same:
+                out.setdefault("aliasing", "%s modified the caller's selector object: it was %s and is now %s" % (
+                    where, snap.tolist() if hasattr(snap, "tolist") else snap, p_.tolist() if hasattr(p_, "tolist") else p_))
+                if hasattr(p_, "dtype"):
+                    p_[...] = snap
+                else:
+                    p_[:] = snap
     try:
         raw = t.rows.indices[sel]
         got = np.atleast_1d(raw)
@@ -95,18 +113,21 @@ def observe(t, sel):
         hold(raw)
     except Exception as exc:
         out["indices"] = ("e", type(exc).__name__)
+    args_intact("rows.indices[...]")
     try:
         m = t.rows.mask[sel]
         out["mask"] = ("v", [int(i) for i in np.where(m)[0]])
         hold(m)
     except Exception as exc:
         out["mask"] = ("e", type(exc).__name__)
+    args_intact("rows.mask[...]")
     try:
         sub = t.rows[sel]
         out["rows"] = ("v", [int(x) for x in sub._data["x"]], list(sub._data["name"]))
         hold(sub._data["x"])
     except Exception as exc:
         out["rows"] = ("e", type(exc).__name__)
+    args_intact("rows[...]")
     # results handed out by EARLIER calls must not have changed (two results of one table alive at once)
     for arr, snap in HELD[:-3]:
         if not (arr.shape == snap.shape and np.array_equal(arr, snap)):
@@ -248,7 +269,12 @@ def random_selector(rng, names, n):
         a = rng.randrange(-n, n)
         return slice(a, rng.choice([None, rng.randrange(-n, n)]), rng.choice([None, 1, 2, 3]))
     if x < 0.8:
-        return sorted(rng.sample(range(n), rng.randrange(1, min(n, 6) + 1)))
+        pos = sorted(rng.sample(range(n), rng.randrange(1, min(n, 6) + 1)))
+        k = rng.random()
+        if k < 0.5:
+            return pos
+        pos = [p_ - n if rng.random() < 0.5 else p_ for p_ in pos]       # the same rows, some counted from the end
+        return pos if k < 0.65 else np.array(pos, dtype=rng.choice([np.int64, np.int64, np.int32, np.intp]))
     if x < 0.9:
         return [rng.random() < 0.4 for _ in range(n)]
     return rng.randrange(-n, n)
